@@ -941,8 +941,68 @@ func nontrivialPlot(pc plotCase) bool {
 	return false
 }
 
+// maxFlush: the largest number of results a single Add releases from the re-order buffer
+// (the arriving result included) for this arrival order, and whether some flush of more than
+// 1024 results stopped at a missing sequence number while later results were already buffered.
+func maxFlush(rs []res) (max int, stopsAtGap bool) {
+	type st struct {
+		next uint64
+		buf  map[uint64]bool
+	}
+	by := map[string]*st{}
+	for _, x := range rs {
+		a := by[x.Attack]
+		if a == nil {
+			a = &st{buf: map[uint64]bool{}}
+			by[x.Attack] = a
+		}
+		a.buf[x.Seq] = true
+		if x.Seq != a.next {
+			continue
+		}
+		n := 0
+		for a.buf[a.next] {
+			delete(a.buf, a.next)
+			a.next++
+			n++
+		}
+		if n > max {
+			max = n
+		}
+		if n > 1024 && len(a.buf) > 0 {
+			stopsAtGap = true // a large flush that ends at a still missing sequence number
+		}
+	}
+	return
+}
+
+func recordFlush(s *kit.Summary, pc plotCase) {
+	m, gap := maxFlush(pc.Results)
+	switch {
+	case m <= 1:
+		s.Count("plot:max-flush<=1")
+	case m <= 16:
+		s.Count("plot:max-flush<=16")
+	case m <= 128:
+		s.Count("plot:max-flush<=128")
+	case m <= 1024:
+		s.Count("plot:max-flush<=1024")
+	case m <= 4096:
+		s.Count("plot:max-flush<=4096")
+	default:
+		s.Count("plot:max-flush>4096")
+	}
+	if m > 1024 && gap {
+		s.Count("plot:max-flush>1024-stops-at-gap")
+	}
+	if old, ok := s.Extra["plot_max_flush"].(int); !ok || m > old {
+		s.Extra["plot_max_flush"] = m
+	}
+}
+
 func recordPlot(s *kit.Summary, pc plotCase, o plotOut) {
 	s.Case(plotCaseKey(pc), nontrivialPlot(pc))
+	recordFlush(s, pc)
 	n := len(pc.Results)
 	switch {
 	case n <= 10:
@@ -1164,6 +1224,90 @@ func plotStreams(c *run.Ctx, s *kit.Summary, r *kit.Rng) {
 		lp.Add(fmt.Sprintf("c17.plot %d %s", pc.Threshold, resultsTokens(pc.Results)), o.line)
 		s.Case(plotCaseKey(pc), nontrivialPlot(pc))
 		s.Count("plot:sentinel-gap")
+	}
+	// (7) few very slow early requests / swapped blocks: 2500…6000 results of one attack, in order
+	// except that a few sequence numbers (sometimes 0) arrive after all the others or much later
+	// (distance > 1024, 2048, 4096), so that a single Add flushes thousands of buffered results
+	// and the flush stops at the next missing sequence number while later results are buffered.
+	for i := 0; i < c.N(3, 60); i++ {
+		n := int(r.Range(2500, 6000))
+		name := attackPool[r.Pick(len(attackPool))]
+		ts := int64(1500000000e9) + r.Range(0, 1e18)
+		errRate := []float64{0, 0, 0.002, 0.02}[r.Pick(4)] // few errors: the model's row sort stays cheap
+		base := make([]res, n)
+		for j := range base {
+			if j > 0 {
+				ts += []int64{0, r.Range(0, 999999), r.Range(0, 3e6), r.Range(0, 40e6)}[r.Pick(4)]
+			}
+			base[j] = res{name, uint64(j), ts, r.Range(1e5, 2e9), r.Chance(errRate)}
+		}
+		var order []res
+		family := "slow-early"
+		if i%3 == 2 {
+			family = "blocks-swapped"
+			cut := n/2 + r.Pick(n/4) - n/8
+			order = append(order, base[cut:]...)
+			if r.Chance(0.5) { // three blocks: last, first, middle … or just second half first
+				cut2 := r.Pick(cut-1) + 1
+				order = append(order, base[cut2:cut]...)
+				order = append(order, base[:cut2]...)
+			} else {
+				order = append(order, base[:cut]...)
+			}
+		} else {
+			k := 2 + r.Pick(4)
+			slow := map[int]bool{}
+			canonical := i%3 == 0 // 1…q-1, q+1…n-1, 0, q: one flush of q > 1024 results ending at the gap q
+			if canonical {
+				k = 2
+				slow[0] = true
+				slow[1100+r.Pick(n-2200)] = true
+			} else if r.Chance(0.6) {
+				slow[0] = true
+			}
+			for len(slow) < k {
+				slow[r.Pick(n)] = true
+			}
+			var late []res // arrive after all the others
+			type ins struct {
+				at int
+				x  res
+			}
+			var mid []ins // arrive at a later position, > dist further on
+			for q := range slow {
+				dist := []int{1025, 2049, 4097}[r.Pick(3)] + r.Pick(500)
+				if canonical || r.Chance(0.5) || q+dist >= n {
+					late = append(late, base[q])
+				} else {
+					mid = append(mid, ins{q + dist + r.Pick(n-q-dist), base[q]})
+				}
+			}
+			sort.Slice(late, func(a, b int) bool { return late[a].Seq < late[b].Seq })
+			if !canonical && r.Chance(0.3) {
+				r.Shuffle(len(late), func(a, b int) { late[a], late[b] = late[b], late[a] })
+			}
+			for j, x := range base {
+				if !slow[j] {
+					order = append(order, x)
+				}
+				for _, m := range mid {
+					if m.at == j {
+						order = append(order, m.x)
+					}
+				}
+			}
+			order = append(order, late...)
+		}
+		pc := plotCase{Op: "plot", Threshold: []int{0, 0, n + 1, 4000}[r.Pick(4)], Results: order, Probe: "large_flush"}
+		o := implPlot(pc, true)
+		oraclePlot(s, pc, o, "VerifData")
+		lp.Add(fmt.Sprintf("c17.plot %d %s", pc.Threshold, resultsTokens(pc.Results)), o.line)
+		s.Case(plotCaseKey(pc), true)
+		recordFlush(s, pc)
+		s.Count("plot:order-family=" + family)
+		if len(order) != n {
+			panic("generator lost a result")
+		}
 	}
 	lp.Diff(c.Driver, s)
 }
